@@ -36,6 +36,25 @@ CHECKS = {
              'the bounds (token strings, separators x multi-line bracket layouts x stray tokens at every position).',
         note='trusted: reference lexer/parser; message wording is free apart from token text, `line <n>` and an end-of-input phrase',
         design='4/C20'),
+    'C15': dict(
+        engine='E2',
+        technique='bounded exhaustive enumeration of sentences x insignificant rewrites (all single rewrites at all positions, '
+                  'all pairs for small sentences); real parse of the rewritten text vs reference tree of the original',
+        text='Every statement up to n nodes is rendered faithfully (checked with the reference parser) and rewritten by every '
+             'insignificant-layout rewrite at every position (blanks, tabs, comments, LF/CRLF inside brackets, separators and blank '
+             'statements, trailing commas, redundant parentheses around every operand, call-form interchange) and by all pairs of '
+             'rewrites for small statements; the real parser must return the original tree each time. Complete within the bounds.',
+        note='trusted: reference parser (tree of the original); rewrites only add layout/commas/parentheses or change the call spelling',
+        design='4/C15'),
+    'C18': dict(
+        engine='E1+E2',
+        technique='bounded exhaustive enumeration of token/character strings and sentences; list_names vs reference lexer; '
+                  'recording host mapping during eval under 6 valuations',
+        text='For every text in the enumerated spaces list_names (asked twice) must equal the identifiers the reference lexer finds '
+             '(error exactly on illegal characters); every name in the real tree must be listed; and every key an evaluation asks '
+             'the (recording) host mapping for must be listed or be an implicit sugar name. Complete within the bounds.',
+        note='trusted: reference lexer; the recording mapping sees exactly what ScopedDict asks a scope for',
+        design='4/C18'),
 }
 
 NOT_YET = {}
